@@ -69,7 +69,7 @@ const GOOD_TS: u64 = 1_700_000_000_000_000_000;
 impl World {
     pub fn new(h: Hist) -> World {
         let root = tempfile::Builder::new().prefix("sv-store-").tempdir().unwrap();
-        World { h, root, gen_: 0, db: None, stored: HashMap::new(), by_uuid: HashMap::new(), stream_by_name: HashMap::new(), last_append: None, sync_ms: 2, max_append_ms: 0 }
+        World { h, root, gen_: 0, db: None, stored: HashMap::new(), by_uuid: HashMap::new(), stream_by_name: HashMap::new(), last_append: None, sync_ms: std::env::var("SV_SYNC_MS").ok().and_then(|x| x.parse().ok()).unwrap_or(2), max_append_ms: 0 }
     }
     pub fn keep(&mut self) -> PathBuf { let p = self.root.path().to_path_buf(); let t = std::mem::replace(&mut self.root, tempfile::tempdir().unwrap()); let _ = t.keep(); p }
     fn dir(&self) -> PathBuf { self.root.path().join(format!("db{}", self.gen_)) }
@@ -85,6 +85,11 @@ impl World {
             .sync_idle_interval(Duration::from_millis(self.sync_ms * 2))
             .cache_capacity_bytes(4 * 1024 * 1024)
             .compression(self.h.comp);
+        if std::env::var("SV_SYNC_MS").is_ok() {
+            // timer-driven syncs only: an acknowledgement then has to wait for the syncer thread,
+            // which makes "acknowledged before the sync" observable
+            b.min_sync_bytes(usize::MAX / 2).max_batch_size(1_000_000);
+        }
         match common::catch(|| b.open(self.dir())) {
             Some(Ok(db)) => { self.db = Some(db); Ok(()) }
             Some(Err(e)) => Err(format!("{e}")),
